@@ -31,6 +31,13 @@ def build(jobs: int = 16, timeout: int = 1500) -> tuple[bool, str]:
         gen = COQ / "GenSched.v"
         if not gen.exists() or gen.read_text() != text:
             gen.write_text(text)
+        try:
+            ladder = translate.translate_ladder(str(REPO))
+        except Exception as ex:  # noqa: BLE001
+            return False, f"translator (harness/translate.py) cannot translate report_to_broker: {type(ex).__name__}: {ex}"
+        genl = COQ / "GenLadder.v"
+        if not genl.exists() or genl.read_text() != ladder:
+            genl.write_text(ladder)
         mk = COQ / "Makefile"
         if mk.exists() and mk.stat().st_mtime < (COQ / "_CoqProject").stat().st_mtime:
             mk.unlink()
